@@ -94,13 +94,16 @@ type content struct {
 	// WideRL > 0 adds to rule list vl_a the hosts r<i>.vla.test, 0 <= i <
 	// WideRL: host i is blocked in version v iff i+v is even.
 	WideRL int `json:"wide_rule_list_hosts,omitempty"`
+	// Spare adds the rule lists vs_shared, vs_allow and vs_extra (see
+	// spare_test.go) to the index.
+	Spare bool `json:"spare_lists,omitempty"`
 	// HashFiller unrelated hosts are put in FRONT of every hash list, so that
 	// resetting the hash storage takes a while.
 	HashFiller int `json:"hash_list_filler_hosts,omitempty"`
 }
 
 func (c content) clone() content {
-	n := content{RL: map[string]int{}, Svc: map[string]int{}, Hash: map[string]int{}, SSGen: c.SSGen, SSYT: c.SSYT, Filler: c.Filler, Wide: c.Wide, WideRL: c.WideRL, HashFiller: c.HashFiller}
+	n := content{RL: map[string]int{}, Svc: map[string]int{}, Hash: map[string]int{}, SSGen: c.SSGen, SSYT: c.SSYT, Filler: c.Filler, Wide: c.Wide, WideRL: c.WideRL, Spare: c.Spare, HashFiller: c.HashFiller}
 	for k, v := range c.RL {
 		n.RL[k] = v
 	}
@@ -159,6 +162,11 @@ func ruleListIndexJSON(base string, c content) string {
 	fls := []fl{}
 	for _, id := range ruleListIDs {
 		if c.RL[id] != 0 {
+			fls = append(fls, fl{id, base + "/rl/" + id})
+		}
+	}
+	if c.Spare {
+		for _, id := range spareListIDs {
 			fls = append(fls, fl{id, base + "/rl/" + id})
 		}
 	}
@@ -298,6 +306,10 @@ func (s *srv) serve(w http.ResponseWriter, rq *http.Request) {
 		body = ruleListIndexJSON(s.base, c)
 	case strings.HasPrefix(p, "/rl/"):
 		id := strings.TrimPrefix(p, "/rl/")
+		if c.Spare && strings.HasPrefix(id, "vs_") {
+			body = spareListText(id)
+			break
+		}
 		x := -1
 		for i, k := range ruleListIDs {
 			if k == id {
